@@ -148,6 +148,19 @@ def main(tier, seed):
     chk.cov["executor_drop_cases"] = {"cases": len(dcases), "rule": "n tasks in {0,1,3,1023,1024,1025,1100,2049,3000} that wake themselves and become ready after 0(never)/1/2 polls, "
                                       "0-3 dispatches, then the executor is removed from the loop: all n futures dropped, schedule() refused"}
     chk.cov["evaluations"] += len(dcases)
+    # scheduling from inside the executor's own completion callback and from inside a running future
+    rcases = ["%d %d" % (n, d) for n in (0, 1, 2, 5, 40) for d in (0, 1, 2, 4)]
+    rout = p_c03.run_batch(vlib.HARNESS, "cexecre", rcases)
+    for c, o in zip(rcases, rout):
+        ws = o.split()
+        if len(ws) != 3:
+            bad.append(("scheduling from callbacks (tasks, generations): " + c, o, ["the run scheduling from inside executor callbacks did not finish: %s" % o[:60]]))
+        elif ws[2] != "0":
+            bad.append(("scheduling from callbacks (tasks, generations): " + c, o, ["schedule() from inside the executor's own callback / a running future panicked"]))
+        elif ws[0] != ws[1]:
+            bad.append(("scheduling from callbacks (tasks, generations): " + c, o, ["%s outputs delivered, %s expected, when tasks are scheduled from inside callbacks and futures" % (ws[0], ws[1])]))
+    chk.cov["schedule_from_callbacks_cases"] = len(rcases)
+    chk.cov["evaluations"] += len(rcases)
     k13 = [x for x in vlib.load_known() if x.get("id") == "F13" and x.get("status") == "known"]
     d13 = p_c03.run_batch(vlib.HARNESS, "cexec13", ["norace", "race"])
     chk.cov["executor_drop_witness"] = d13
@@ -176,6 +189,16 @@ def main(tier, seed):
 
 
 def replay(path):
+    rcases = [l.split(":", 1)[1].strip() for l in open(path) if l.startswith("scheduling from callbacks (tasks")]
+    if rcases:
+        vlib.build_harness()
+        out = p_c03.run_batch(vlib.HARNESS, "cexecre", rcases)
+        rc = 0
+        for c, o in zip(rcases, out):
+            print(c, "->", o)
+            if len(o.split()) != 3 or o.split()[2] != "0" or o.split()[0] != o.split()[1]:
+                rc = 1
+        return rc
     dcases = [l.split(":", 1)[1].strip() for l in open(path) if l.startswith("executor drop (tasks")]
     if dcases:
         vlib.build_harness()
